@@ -591,6 +591,10 @@ class BufferAsyncCalls(Generic[T]):
         )
         #: Current task that is waiting for a new element from the queue
         self._getting: Optional['aio.Task[AsyncIterable[T]]'] = None
+        #: Set by :meth:`wait` right before it cancels :attr:`_getting`
+        #: to tell that cancellation ("flush now") apart from the
+        #: cancellation of :attr:`_waiting` itself (e.g. loop shutdown)
+        self._flush_requested = False
 
     def __call__(self, _arg: T) -> None:
         """
@@ -685,7 +689,9 @@ class BufferAsyncCalls(Generic[T]):
             # _process_queue gets at least one cycle to pull remaining
             # elements off the queue
             await aio.sleep(0)
-            self._getting.cancel()
+            if not self._getting.done():
+                self._flush_requested = True
+                self._getting.cancel()
         # Wait for the function to finish processing
         await self.event.wait()
 
@@ -716,6 +722,8 @@ class BufferAsyncCalls(Generic[T]):
                 async for i in iterable:
                     inputs.add(i)
             except BaseException:  # noqa
+                if _being_cancelled():  # Never swallow our cancellation
+                    raise
                 logger.exception("Failed to get args from: %r", iterable)
 
         # Get first element, block infinitely until one appears
@@ -735,14 +743,22 @@ class BufferAsyncCalls(Generic[T]):
             # can be cancelled as necessary. This needs to be scheduled
             # *before* waiting for the known inputs.
             self._getting = self._schedule_with_timeout(self.q.get())
+            self._flush_requested = False
             if input_gens:  # Load as many as possible concurrently
                 await aio.gather(*input_gens)
                 input_gens.clear()  # Clear processed input generators
             # Now wait for the next arguments to buffer. If this times
-            # out or is cancelled, its time to run the function.
+            # out or is cancelled by wait(), its time to run the function.
             try:
                 await _load_inputs(await self._getting)
-            except (aio.TimeoutError, aio.CancelledError):
+            except (aio.TimeoutError, aio.CancelledError) as e:
+                # Only wait() cancelling the q.get() means "flush now",
+                # if this task itself is being cancelled it has to end
+                if isinstance(e, aio.CancelledError) and (
+                    _being_cancelled() or not self._flush_requested
+                ):
+                    raise
+                self._flush_requested = False
                 if await self._run_func(inputs):
                     break
             else:
@@ -763,6 +779,8 @@ class BufferAsyncCalls(Generic[T]):
             if inputs:  # Could be empty if all empty iterators
                 await self.func(inputs)
         except BaseException as e:  # noqa
+            if _being_cancelled():  # Never swallow our cancellation
+                raise
             logging.exception("Failed to run %s, retrying", self.func)
             return False
         else:
@@ -1364,6 +1382,16 @@ async def run_aw_threadsafe(aw: Awaitable[T], loop: Loop) -> T:
 async def _aw_to_coro(aw: Awaitable[T]) -> T:
     """Wrap a given awaitable so it appears as a coroutine."""
     return await aw
+
+
+def _being_cancelled() -> bool:
+    """
+    Check if the current task has a pending cancellation request as
+    opposed to something it awaits having raised CancelledError.
+    Always False before Python 3.11 where this can't be determined.
+    """
+    cancelling = getattr(aio.current_task(), 'cancelling', None)
+    return cancelling is not None and cancelling() > 0
 
 
 async def _obj_to_aiter(o: T) -> AsyncIterable[T]:
